@@ -364,6 +364,25 @@ func rulePRODGUARD(c *Ctx, r *Report) {
 				r.ok(rule, key, pos, pi.Kind)
 			}
 		}
+		// every expression position of the window must reach the result (as a child, through a
+		// nested constructor, or as a scalar attribute): otherwise query content is dropped
+		used := map[int]bool{}
+		if row.OutKind == "identity" {
+			used[row.Identity] = true
+		}
+		for _, a := range row.Args {
+			if a.Pos >= 0 {
+				used[a.Pos] = true
+			}
+			for _, d := range a.Derived {
+				used[d] = true
+			}
+		}
+		for i := 0; i < n; i++ {
+			if pi := row.Pos[i]; pi != nil && pi.Kind == "expr" && !used[i] {
+				r.bad(rule, fmt.Sprintf("%s[%s]|dropped-pos%d", row.name(), tag, i), pos, fmt.Sprintf("%s fires on window [%s] but the expression at position %d does not reach the node it builds: that part of the query is silently dropped", row.name(), row.pattern(), i))
+			}
+		}
 		// scalar-consumed operands
 		for _, a := range row.Args {
 			if a.Pos >= 0 || len(a.Derived) == 0 || isNestedCtor(a.Val) {
